@@ -32,11 +32,40 @@ fn eval_tree(ins: &ommx::v1::Instance, st: &ommx::v1::State) -> Tree {
 
 /// relax_history: [instance, [op..], state] with op = ["relax", id, reason, [[k,v]..]] | ["restore", id]
 /// -> ok [[result, instance after the op, evaluation at state]..]
+/// the two feasibility maps of Instance::evaluate_samples on the states given as samples 0, 1, 2, ...
+fn sample_flags(ins: &ommx::v1::Instance, states: &[ommx::v1::State]) -> Tree {
+    let mut samples = ommx::v1::Samples::default();
+    for (k, s) in states.iter().enumerate() {
+        let mut en = ommx::v1::samples::SamplesEntry::default();
+        en.state = Some(s.clone());
+        en.ids = vec![k as u64];
+        samples.entries.push(en);
+    }
+    match ins.evaluate_samples(&samples) {
+        Ok((ss, _)) => {
+            let e_bmap = |m: &std::collections::HashMap<u64, bool>| {
+                let mut v: Vec<_> = m.iter().collect();
+                v.sort();
+                list(v, |(k, x)| L(vec![u(*k), b(*x)]))
+            };
+            ok(L(vec![e_bmap(&ss.feasible), e_bmap(&ss.feasible_relaxed)]))
+        }
+        Err(e) => err("evaluate_samples", &format!("{e:#}")),
+    }
+}
+
 fn relax_history(input: &Tree) -> Result<Tree, String> {
     let xs = input.as_list()?;
     let mut ins = d_instance(&xs[0])?;
     let st = d_state(&xs[2])?;
-    let mut out = vec![L(vec![a("start"), e_instance(&ins), eval_tree(&ins, &st)])];
+    // optional 4th element: further states; together with the main state they are evaluated as a sample set
+    let mut states = vec![st.clone()];
+    if xs.len() > 3 {
+        for t in xs[3].as_list()? {
+            states.push(d_state(t)?);
+        }
+    }
+    let mut out = vec![L(vec![a("start"), e_instance(&ins), eval_tree(&ins, &st), sample_flags(&ins, &states)])];
     for o in xs[1].as_list()? {
         let p = o.as_list()?;
         let r = match p[0].as_str()? {
@@ -52,7 +81,7 @@ fn relax_history(input: &Tree) -> Result<Tree, String> {
             Ok(()) => a("ok"),
             Err(_) => a("err"),
         };
-        out.push(L(vec![rt, e_instance(&ins), eval_tree(&ins, &st)]));
+        out.push(L(vec![rt, e_instance(&ins), eval_tree(&ins, &st), sample_flags(&ins, &states)]));
     }
     Ok(ok(L(out)))
 }
